@@ -93,18 +93,18 @@ impl SourceMap {
             .collect()
     }
 
-    pub fn move_offsets(&mut self, scope: SymbolIndex, new_scope: SymbolIndex, new_span: Span) {
+    /// Attributes every offset that was added since there were 'first' offsets to the new scope and span.
+    /// Offsets are only ever appended, so these are exactly the offsets of whatever was emitted in the meantime,
+    /// including what was emitted from scopes nested in it.
+    pub fn move_offsets(&mut self, first: usize, new_scope: SymbolIndex, new_span: Span) {
         log::trace!(
-            "Trying to move offset from scope '{:?}' to scope '{:?}'",
-            scope,
+            "Moving the offsets starting at {} to scope '{:?}'",
+            first,
             new_scope
         );
-        self.offsets.iter_mut().for_each(|offset| {
-            if offset.scope == scope {
-                log::trace!("Moved");
-                offset.scope = new_scope;
-                offset.span = new_span;
-            }
+        self.offsets.iter_mut().skip(first).for_each(|offset| {
+            offset.scope = new_scope;
+            offset.span = new_span;
         });
     }
 }
